@@ -6,6 +6,7 @@ import logging
 import os
 import subprocess
 import sys
+import zlib
 from dataclasses import dataclass, field
 
 from vf.harness import REPO, Scratch
@@ -128,12 +129,37 @@ def file_api(kind: str, src: str, files: dict | None = None, mapping: str | None
     fr = FrontResult()
     all_files, spath = laid_out(files, src, layout)
     with Scratch(all_files), capture_logs() as cap:
-        program = Program()
+        program = None
+        if DUMP_SYMBOLS["on"]:
+            try:
+                program = Program(dump_symbols=True)
+            except TypeError:
+                program = None
+        if program is None:
+            program = Program()
         for k, v in (defines or {}).items():
             program.resolver.current_scope.add_symbol(k, v)
         out = "out.ips" if kind == "patch" else "out.sfc"
+        # a quarter of the runs (chosen by the source text) select the mapping the in-memory way - on the Program's resolver, before the
+        # call - and leave the mapping argument out: "keep the one in force"
+        preset = False
+        if mapping is not None and zlib.crc32(src.encode("utf-8", "replace")) % 4 == 0:
+            try:
+                from a816.cpu.cpu_65c816 import RomType
+
+                program.resolver.rom_type = {"low": RomType.low_rom, "low2": RomType.low_rom_2, "high": RomType.high_rom}[mapping]
+                preset = True
+            except (ImportError, AttributeError, KeyError):
+                preset = False
+        old_stdout = sys.stdout
+        if DUMP_SYMBOLS["on"]:
+            sys.stdout = io.StringIO()
         try:
-            if kind == "patch":
+            if preset and kind == "patch":
+                fr.status = program.assemble_as_patch(spath, out, None, copier)
+            elif preset:
+                fr.status = program.assemble(spath, out)
+            elif kind == "patch":
                 fr.status = program.assemble_as_patch(spath, out, mapping, copier)
             else:
                 if "mapping" in inspect.signature(program.assemble).parameters:
@@ -144,6 +170,8 @@ def file_api(kind: str, src: str, files: dict | None = None, mapping: str | None
             if isinstance(e, (KeyboardInterrupt, SystemExit)):
                 raise
             fr.exc, fr.exc_text = type(e).__name__, str(e)[:300]
+        finally:
+            sys.stdout = old_stdout
         fr.out = _read(out)
         if want_symbols and not fr.exc:
             try:
